@@ -107,7 +107,13 @@ package sweep
 //@   requires 0 <= r.MaxFeeRate && r.MaxFeeRate <= 1<<40 && 0 <= r.Budget
 //@   ensures result1 == nil ==> 0 <= result0 && result0 <= 1<<40
 //@   ensures result1 == nil ==> result0 <= r.MaxFeeRate && result0 <= ret(NewSatPerKWeight)
-//@   ensures result1 == nil ==> result0 == r.MaxFeeRate || result0 == ret(NewSatPerKWeight)
+//@   loop 0 havoc
+//@   loop 0 invariant 0 <= maxFeeRateAllowed && maxFeeRateAllowed <= ret(NewSatPerKWeight)
+//@   // domain: budgets and weights for which budget/weight stays below 2^40 sat/kw; a transaction weighs at most 4M wu
+//@   site call FeeForWeight: domain arg(0) <= 1<<40 && arg(1) <= 1<<22
+//@   // the fee at the ceiling fits the budget (finding F23: the budget rate is rounded to the NEAREST sat/kw, so the fee at it could
+//@   // exceed the budget by a few sat and the ceiling transaction was refused at every block)
+//@   ensures result1 == nil ==> result0 <= 0 || fdiv(result0 * retn(calcSweepTxWeight, 0), 1000) <= r.Budget
 //@   site call NewSatPerKWeight: assert arg(fee) == r.Budget && arg(wu) == retn(calcSweepTxWeight, 0) && retn(calcSweepTxWeight, 1) == nil
 //@
 //@ func (t *TxPublisher) createAndCheckTx
